@@ -90,8 +90,28 @@ class State:
 _fresh_counter = itertools.count()
 
 
+def _heap_modified(st, st2, heap_before):
+    """did evaluating a comprehension element in the copy st2 change the heap?  Arrays touched for the first time
+    (lazily created, canonical name) are not a change: they are adopted by the enclosing state."""
+    for k_, arr in st2.heap.items():
+        if k_ in heap_before:
+            if not (arr is heap_before[k_] or arr.eq(heap_before[k_])):
+                return True
+        elif z3.is_const(arr) and arr.decl().name() == 'heap!%s.%s' % k_:
+            st.heap.setdefault(k_, arr)
+        else:
+            return True
+    return False
+
+
+_FRESH_LOG = None      # while a list comprehension element is evaluated: the constants created for it
+
+
 def fresh(name, ty):
-    return z3.Const('%s!%d' % (name, next(_fresh_counter)), ty.sort())
+    c = z3.Const('%s!%d' % (name, next(_fresh_counter)), ty.sort())
+    if _FRESH_LOG is not None:
+        _FRESH_LOG.append(c)
+    return c
 
 
 def fresh_sv(name, ty):
@@ -289,6 +309,16 @@ def coerce(sv, want):
     if isinstance(want, T.Opt):
         if ty == T.NONE:
             return SV(want, want.none())
+        if isinstance(want.inner, T.Seq) and isinstance(want.inner.elem, T.Seq) and want.inner.elem.elem == T.ATOM and \
+                (ty == T.TREE or (isinstance(ty, T.Opt) and ty.inner == T.TREE)):
+            # a nested-dict leaf that holds None or a list of paths (a flow entry), read as Optional[Sequence[path]]:
+            # an uninterpreted view of the same object (None is preserved, nothing else is assumed)
+            view = z3.Function('view!pathlist', T.TreeSort, want.inner.sort())
+            if ty == T.TREE:
+                t, absent = sv.t, z3.BoolVal(False)
+            else:
+                t, absent = ty.get(sv.t), ty.is_none(sv.t)
+            return SV(want, z3.If(z3.Or(absent, t == T.TLeaf(T.VNone())), want.none(), want.some(view(t))))
         inner = coerce(sv, want.inner)
         if inner is not None:
             return SV(want, want.some(inner.t))
@@ -479,7 +509,28 @@ class Exec:
             while o is not None:
                 o.heap.setdefault(key, st.heap[key])
                 o = o.old
+            f = self.ghost_default_fact(key, st.heap[key], z3.Int('alloc!entry'))
+            if f is not None:
+                st.pc.append(f)
         return key, fty
+
+    def is_ghost_field(self, key):
+        cm = S.CLASSES.get(key[0])
+        return bool(cm) and key[1] in cm.ghost
+
+    def ghost_default_fact(self, key, arr, alloc):
+        """Convention for ghost state: the Boolean ghost flags of objects that do not exist yet are False (a new object
+        starts with default ghost state unless its constructor's contract says otherwise).  Kept true by construction:
+        every write of a ghost field is checked to go to an allocated object (obligation `ghost-write-allocated`)."""
+        if not self.is_ghost_field(key):
+            return None
+        fty = T.parse_type(S.CLASSES[key[0]].all_fields()[key[1]])
+        if fty != T.BOOL:
+            return None
+        r = z3.Int('r!gd')
+        self.ctx.assumptions_used.add('ghost-state convention: Boolean ghost flags of not-yet-allocated objects are False '
+                                      '(ghost writes are checked to target allocated objects)')
+        return z3.ForAll([r], z3.Implies(r >= alloc, z3.Not(arr[r])), patterns=[arr[r]])
 
     def heap_read(self, st, ref_sv, field):
         key, fty = self.heap_arr(st, ref_sv.ty.cls, field)
@@ -498,6 +549,8 @@ class Exec:
         v = coerce(val, fty)
         if v is None:
             raise OutOfSubset('cannot store %s into %s.%s : %s' % (val.ty, key[0], field, fty))
+        if self.is_ghost_field(key) and fty == T.BOOL and ('$alloc', 'next') in st.heap:
+            self.safety(st, ref_sv.t < st.heap[('$alloc', 'next')], 'ghost-write-allocated')
         st.heap[key] = z3.Store(st.heap[key], ref_sv.t, v.t)
 
     # ---- expression evaluation -----------------------------------------
@@ -975,23 +1028,58 @@ class Exec:
         """[expr for x in seq]  (one generator, no filter): pointwise image of a sequence"""
         if len(node.generators) != 1 or node.generators[0].ifs:
             raise OutOfSubset('list comprehension with filter / several generators')
+        global _FRESH_LOG
         g = node.generators[0]
         seq = self.ev(g.iter, st)
-        if not isinstance(seq.ty, T.Seq) or not isinstance(g.target, ast.Name):
+        if isinstance(seq.ty, T.Opt) and isinstance(seq.ty.inner, T.Seq):
+            # iterating an Optional sequence: None would raise TypeError
+            self.safety(st, z3.Not(seq.ty.is_none(seq.t)), 'iteration-over-None')
+            seq = SV(seq.ty.inner, seq.ty.get(seq.t))
+        if not isinstance(seq.ty, T.Seq):
             raise OutOfSubset('list comprehension over %s' % seq.ty)
         j = z3.Int('j!lc%d' % next(_fresh_counter))
         st2 = st.copy()
-        st2.env[g.target.id] = seq_get(seq, j)
-        st2.alias.pop(g.target.id, None)
+        if isinstance(g.target, ast.Name):
+            st2.env[g.target.id] = seq_get(seq, j)
+            st2.alias.pop(g.target.id, None)
+        elif isinstance(g.target, ast.Tuple) and all(isinstance(e, ast.Name) for e in g.target.elts) \
+                and isinstance(seq.ty.elem, T.Tup) and len(seq.ty.elem.items) == len(g.target.elts):
+            el = seq_get(seq, j)
+            for idx, e in enumerate(g.target.elts):
+                st2.env[e.id] = SV(seq.ty.elem.items[idx], seq.ty.elem.get(el.t, idx))
+                st2.alias.pop(e.id, None)
+        else:
+            raise OutOfSubset('list comprehension target')
         saved = list(self.guards)
-        self.guards.append(z3.And(0 <= j, j < seq_len(seq)))
+        in_range = z3.And(0 <= j, j < seq_len(seq))
+        self.guards.append(in_range)
+        prev_log, _FRESH_LOG = _FRESH_LOG, []
+        n_pc = len(st2.pc)
+        heap_before = dict(st2.heap)
         try:
             elem_want = want.elem if isinstance(want, T.Seq) else None
             v = self.ev(node.elt, st2, elem_want)
         finally:
             self.guards = saved
+            created, _FRESH_LOG = _FRESH_LOG, prev_log
+            if prev_log is not None:
+                prev_log.extend(created)
+        vt = v.t
+        new_facts = st2.pc[n_pc:]
+        if new_facts or created:
+            # the element expression called functions by contract: their results are one value PER ELEMENT (skolem
+            # functions of the index), and the facts their contracts give hold for every index in range
+            if _heap_modified(st, st2, heap_before):
+                raise OutOfSubset('list comprehension whose element expression modifies the heap')
+            subst = [(c, z3.Function('%s!sk' % c.decl().name(), z3.IntSort(), c.sort())(j)) for c in created]
+            if subst:
+                vt = z3.substitute(vt, *subst)
+                new_facts = [z3.substitute(f, *subst) for f in new_facts]
+            if new_facts:
+                body = z3.Implies(in_range, z3.And(*new_facts))
+                st.pc.append(z3.ForAll([j], body, patterns=[subst[0][1]] if subst else []))
         rty = T.Seq(v.ty)
-        arr = z3.Lambda([j], z3.If(z3.And(0 <= j, j < seq_len(seq)), v.t, v.ty.dflt()))
+        arr = z3.Lambda([j], z3.If(in_range, vt, v.ty.dflt()))
         return SV(rty, rty.mk(seq_len(seq), arr))
 
     def ev_DictComp(self, node, st, want):
@@ -1041,8 +1129,7 @@ class Exec:
         if new_facts:
             # facts assumed while evaluating the value (postconditions of callees): only sound to keep if the
             # value does not depend on the comprehension variable and nothing on the heap was modified
-            if any(not (st2.heap[k_] is heap_before.get(k_) or st2.heap[k_].eq(heap_before.get(k_, st2.heap[k_]))) for k_ in st2.heap) \
-                    or len(st2.heap) != len(heap_before):
+            if _heap_modified(st, st2, heap_before):
                 raise OutOfSubset('dict comprehension whose value expression modifies the heap')
             names = {kname} | ({vname} if vname else set())
             for sub in ast.walk(node.value):
